@@ -11,7 +11,7 @@ import jesse_env
 class C02(core.Check):
     pid = 'C02'
     unproved = [
-        'fast simulator: the composition is proved for the normal simulator only, and is FALSE for the fast one (fast_chunk_leaves_order_in_range_witness, known finding C02-F5: the chunk is sorted along raw minutes and matched on jump-fixed ones); in a chunk the re-selection is not re-sorted (known finding C02-F1) and per-minute candidates are carried over, so only chunk_minute_no_resting_hit is proved there; the rest is decided by correspondence and the missed-fill oracle',
+        'fast simulator: the composition is proved for the normal simulator only (the former counterexample C02-F5 — a chunk sorted along raw minutes and matched on jump-fixed ones — is repaired by 947063f1 and kept as fast_chunk_fills_both_regression); in a chunk the re-selection is not re-sorted (known finding C02-F1) and per-minute candidates are carried over, so only chunk_minute_no_resting_hit is proved there; the rest is decided by correspondence and the missed-fill oracle',
         'the validity of the minute candle handed to the loop is proved for whole runs of the normal simulator on valid input (runStepN_keeps_valid, minute_candle_valid) and, for the rows of a chunk, of the fast simulator (runSkipN_keeps_valid, chunk_minute_valid); that the registry lists every active order at the start of the minute (C05.active_registry at strategy steps) remains a hypothesis of resting_order_never_left_in_range',
     ]
     gen_keys = ['jesse/services/candle.py:split_candle', 'jesse/services/candle.py:candle_includes_price',
